@@ -42,3 +42,7 @@ package gen
 //@ func (*Output).GetDirectory(x) (r)
 //@   pure
 //@   ensures [oneof] x != nil ==> r == ite(typeIs(x.Kind, "*gen.Output_Directory"), asPtr(x.Kind, "*gen.Output_Directory").Directory, nil)
+
+//@ func (*DockerImageOutput).GetLocalTag(x) (r)
+//@   pure
+//@   ensures [field] r == ite(x == nil, "", x.LocalTag)
